@@ -513,6 +513,23 @@ class Model:
     def fn(self, q):
         return self.fns.get(q)
 
+    def inlined_view(self, f, want, depth=2):
+        """a copy of function f with the calls selected by `want(Call)` inlined (vlib/inline.py), for rules that read a
+        protocol step which may live in a helper of the tree itself (`child.resume(ctx)` for the inline set Running / emit /
+        exec). The view is not registered in the model; its block numbers are its own."""
+        from . import inline as _inl
+        j = f.j
+        changed = False
+        for _ in range(depth):
+            g = Fn(j, f.crate) if changed else f
+            sites = [c.b for c in g.calls() if c.q in self.fns and c.q != f.q and c.kind not in ("virtual", "generic", "indirect", "err") and want(c)]
+            if not sites:
+                break
+            for b in sites:
+                j = _inl.inline_call(j, b, self.fns[j["blocks"][b]["t"][1]["q"]].j)
+                changed = True
+        return Fn(j, f.crate) if changed else f
+
     def find(self, pat):
         r = re.compile(pat)
         return [f for q, f in self.fns.items() if r.search(q)]
@@ -880,6 +897,17 @@ class Prov:
                 continue
             return (r, c.b, adaptors)
         return None
+
+
+def strip_try(fn, pa, r, depth=0):
+    """`x?` is the payload of x: a root `Try::branch(x).@Continue.0` becomes the root of x with `.@Some.0` / `.@Ok.0`"""
+    if r[0] == "call" and r[3][:2] == ("@Continue", "0") and re.search(r"as std::ops::Try>::branch$", r[1]) and depth < 4:
+        c = Call(fn, r[2])
+        if c.args:
+            inner = strip_try(fn, pa, pa.root(fn, c.args[0]), depth + 1)
+            var = "@Some" if "option::Option" in r[1] else "@Ok"
+            return pa._wrap(inner, (var, "0") + tuple(r[3][2:]))
+    return r
 
 
 def enum_const_cases(fn, pa, op, depth=0):
